@@ -14,7 +14,7 @@ LEVEL_NOTE = ("Trusted: Lean kernel; the hand-written model as far as correspond
               "rounded doubles (validated bit-exactly per case). Float composition is the bounded statement (3 ulp), compile/scale commutation and "
               "Markdown prose are checked by the oracle on generated documents, not yet theorems.")
 LEAN_MODULES = ["RecipeGrid.Props.C03"]
-SOURCES = ["recipe_grid/recipe.py", "recipe_grid/scaled_value_string.py"]
+SOURCES = ["recipe_grid/recipe.py", "recipe_grid/scaled_value_string.py", "recipe_grid/markdown.py", "recipe_grid/static_site/standalone_page.py"]
 RULE = ("multi-block recipes built with the real constructors (references to earlier sub recipes incl. multi-output, nested sub recipes, every amount form, "
         "numbers int/Fraction/float in names) and compiled descriptions, times factors from positive ints, Fractions and floats; non-trivial = at least "
         "one scalable number; distinct = distinct (recipe, factor)")
@@ -124,6 +124,135 @@ def check_case(recipes, k, k2):
     return out
 
 
+# ------------------------------------------------------------------ compile/scale commutation, Markdown prose, standalone page
+def scale_name(name, k):
+    return tuple(p if isinstance(p, str) else p * k for p in name)
+
+
+def scale_amount(a, k):
+    if a is not None and a[0] in ("qty", "xqty"):
+        return (a[0], a[1] * k) + tuple(a[2:])
+    return a
+
+
+def scale_expr(e, k):
+    if e[0] == "step":
+        return ("step", scale_name(e[1], k), [scale_expr(x, k) for x in e[2]])
+    return ("leaf", scale_amount(e[1], k), scale_name(e[2], k))
+
+
+def scale_desc(d, k):
+    return [[(None if outs is None else [scale_name(o, k) for o in outs], named, scale_expr(e, k)) for outs, named, e in block] for block in d]
+
+
+def desc_is_exact(d):
+    def nums(e):
+        if e[0] == "step":
+            yield from (p for p in e[1] if not isinstance(p, str))
+            for x in e[2]:
+                yield from nums(x)
+        else:
+            if e[1] is not None and e[1][0] in ("qty", "xqty", "prop", "pct", "times"):
+                yield e[1][1]
+            yield from (p for p in e[2] if not isinstance(p, str))
+    for block in d:
+        for outs, named, e in block:
+            for o in outs or []:
+                if any(isinstance(p, float) for p in o):
+                    return False
+            if any(isinstance(x, float) for x in nums(e)):
+                return False
+    return True
+
+
+def tables_html(recipes):
+    from recipe_grid.renderer.html import render_recipe_tree
+    return [[render_recipe_tree(t, "r-") for t in r.recipe_trees] for r in recipes]
+
+
+def check_commute(d, k):
+    """scaling after compilation yields the same tables as compiling a source whose scalable numbers were multiplied beforehand"""
+    from .. import gen_desc
+    from recipe_grid.compiler import compile as rg_compile
+    sp = gen_desc.Spelling(None)
+    try:
+        a = rg_compile(gen_desc.print_desc(d, sp)[0])
+    except Exception:
+        return []
+    try:
+        b = rg_compile(gen_desc.print_desc(scale_desc(d, k), sp)[0])
+    except Exception as e:  # noqa
+        return [("C03:premultiplied-source-does-not-compile", repr(e)[:200])]
+    if tables_html([r.scale(k) for r in a]) != tables_html(b):
+        return [("C03:scale-after-compile-differs-from-compile-of-premultiplied-source", "factor %r" % (k,))]
+    return []
+
+
+MD_DOC = """# Pie for %(n)d
+
+Roll {%(a)s} sheets and cut {%(b)s} rounds of 10cm.
+
+    %(q)s g flour
+    pastry = mix(flour, {%(c)s} eggs)
+    bake(pastry, 2 kg apples)
+
+Serve in {%(a)s} bowls.
+"""
+
+
+def svalues(html, in_blocks):
+    from .. import htmltok
+    root, _ = htmltok.tree(html)
+    out = []
+    for n in root.iter():
+        if "rg-scaled-value" in n.classes():
+            inside = False
+            p = n.parent
+            while p is not None:
+                if "rg-recipe-block" in p.classes():
+                    inside = True
+                p = p.parent
+            if inside == in_blocks and not any("rg-scaled-value" in c.classes() for c in n.iter() if c is not n):
+                out.append(n.text(lambda x: x.tag == "ul").strip())
+    return out
+
+
+def check_markdown(rng):
+    from recipe_grid.markdown import compile_markdown
+    from recipe_grid.number_formatting import format_number
+    from recipe_grid.static_site.standalone_page import generate_standalone_page
+    from .. import gen_site
+    import shutil
+    out = []
+    n = rng.choice([1, 2, 3, 4, 6])
+    a, b, c, q = rng.choice([2, 3, 5]), rng.choice([Fraction(1, 2), 4, Fraction(3, 4)]), rng.choice([1, 2]), rng.choice([100, 250, 75])
+    fmt = lambda x: ("%d/%d" % (x.numerator, x.denominator)) if isinstance(x, Fraction) else str(x)  # noqa
+    doc = MD_DOC % dict(n=n, a=fmt(a), b=fmt(b), c=fmt(c), q=q)
+    mr = compile_markdown(doc)
+    k = rng.choice([2, 3, Fraction(1, 2), Fraction(3, 2), Fraction(4, 3), Fraction(2, 3)])
+    html = mr.render(k)
+    want_prose = [format_number(n * k).replace("/", "⁄"), format_number(a * k).replace("/", "⁄"), format_number(b * k).replace("/", "⁄"),
+                  format_number(a * k).replace("/", "⁄")]
+    got = svalues(html, False)
+    if got != want_prose:
+        out.append(("C03:markdown-prose-not-scaled", "scale %r: prose shows %r, expected %r" % (k, got, want_prose)))
+    # standalone page at a serving count = render at count / stated servings, exactly
+    scratch = gen_site.scratch_root()
+    try:
+        f = scratch / "pie.md"
+        f.write_text(doc)
+        for m in (rng.choice([1, 2, 3, 4, 5, 7]), n):
+            page = generate_standalone_page(f, servings=m, embed_local_links=False)
+            if svalues(page, True) + svalues(page, False) != svalues(mr.render(Fraction(m, n)), True) + svalues(mr.render(Fraction(m, n)), False):
+                out.append(("C03:standalone-page-not-scaled-by-servings-ratio", "stated %d, requested %d: shows %r" % (n, m, svalues(page, True)[:4])))
+        page = generate_standalone_page(f, scale=k, embed_local_links=False)
+        if svalues(page, True) != svalues(mr.render(k), True):
+            out.append(("C03:standalone-page-scale-wrong", "scale %r" % (k,)))
+    finally:
+        shutil.rmtree(scratch, ignore_errors=True)
+    return out
+
+
 def gen_cases(run, n):
     cases = []
     for _ in range(n):
@@ -152,11 +281,37 @@ def oracle(run):
         run.case(("oracle", rsexp.blocks(rs), repr(k), repr(k2)), True)
         for sig, detail in check_case(rs, k, k2):
             run.violate(sig, detail, {"blocks": rsexp.blocks(rs), "k": repr(k), "k2": repr(k2)})
+    from .. import gen_desc
+    for _ in range(run.budget(150, 4000)):
+        d = gen_desc.Gen(run.rng).desc()
+        if not desc_is_exact(d):
+            continue
+        k = run.rng.choice([2, 3, 10, Fraction(1, 2), Fraction(3, 2), Fraction(7, 3)])
+        run.case(("commute", repr(d), repr(k)), True, kind="compile-scale-commute")
+        for sig, detail in check_commute(d, k):
+            run.violate(sig, detail, {"desc": repr(d), "k": repr(k)})
+    for _ in range(run.budget(12, 200)):
+        run.case(("markdown", run.evaluations), True, kind="markdown+standalone")
+        seed = run.rng.randint(0, 10 ** 9)
+        import random as _r
+        for sig, detail in check_markdown(_r.Random(seed)):
+            run.violate(sig, detail, {"markdown_seed": seed})
 
 
 def replay(run, obj):
     from .c02 import tree_of_sexp
     r = obj["replay"]
+    if "markdown_seed" in r:
+        import random as _r
+        res = check_markdown(_r.Random(r["markdown_seed"]))
+        for x in res:
+            print(*x)
+        return bool(res)
+    if "desc" in r:
+        res = check_commute(eval(r["desc"], {"Fraction": Fraction}), eval(r["k"], {"Fraction": Fraction}))
+        for x in res:
+            print(*x)
+        return bool(res)
     blks = sexp.decode(sexp.parse(r["blocks"]))
     prev = None
     recipes = []
